@@ -375,9 +375,12 @@ pub fn generate(property: &str, tier: &str, seed: u64, index: u64) -> Plan {
             5 => s1(property, "s1-faultfree", seed, &S1Opts { faults: false, allow_lockstep: true, ..Default::default() }),
             _ => s1(property, "s1", seed, &S1Opts { allow_lockstep: true, ..Default::default() }),
         },
-        "C03" => match index % 4 {
+        "C03" => match index % 5 {
             0 => s1(property, "s1-faultfree", seed, &S1Opts { faults: false, ..Default::default() }),
             1 => s1(property, "s1-held", seed, &S1Opts { bias_held: true, ..Default::default() }),
+            // the Disconnected clause of the statement needs a disconnect: two peers, one dies or is
+            // disconnected through the API (C07's scenario, judged by the status oracle)
+            2 => c07(property, seed),
             _ => s1(property, "s1", seed, &S1Opts::default()),
         },
         "C04" => match index % 4 {
@@ -396,6 +399,15 @@ pub fn generate(property: &str, tier: &str, seed: u64, index: u64) -> Plan {
         "C18" => c18(property, seed, index),
         "C15" => c15(property, seed, index),
         "C16" => c16(property, seed, index),
+        "C17" if index % 5 == 3 => {
+            // run-time delay changes with several local players: the order in which a session walks
+            // its local players must not matter either
+            let mut p = c11(property, seed, index);
+            p.scenario = format!("c17-{}", p.scenario);
+            p.cfg.clock_bump_us = 0;
+            p.oracle.liveness = None;
+            p
+        }
         "C17" if index % 5 == 4 => {
             // a really diverging game with detection on: several mismatching reports can be pending
             // at once, and the order in which they are reported must not depend on hash order either
@@ -1296,6 +1308,19 @@ pub fn c11(property: &str, seed: u64, index: u64) -> Plan {
         t_prev = at;
         p.api.push(ApiCall { node, at_us: at, call: Api::SetDelay { handle, delay: c.range(&[6, j], 0, 6) as usize } });
     }
+    // a quiet tail: after the last delay change and the last fault every peer must still be
+    // advancing (a stream that stops is a gap, and inputs stuck in a buffer show as a stall)
+    let old_horizon = p.horizon_us;
+    let max_lat = p.links.iter().map(|l| l.base_us + l.jitter_us).max().unwrap_or(0);
+    p.random_faults_until_us = Some(old_horizon);
+    for n in p.nodes.iter_mut() {
+        n.tick.pauses.retain(|x| x.1 <= old_horizon);
+    }
+    p.windows.retain(|w| w.end_us <= old_horizon);
+    let heal = old_horizon + 2 * max_lat + ms(300);
+    p.horizon_us = heal + ms(3000);
+    let peers_only: Vec<usize> = p.peers();
+    p.oracle.liveness = Some(Liveness { heal_us: heal, deadline_us: heal + ms(3000), min_frames: 3, require_running: false, nodes: peers_only, spectator_lag: false });
     p
 }
 
